@@ -98,7 +98,7 @@ RULE["F6"] = ("F6: the REAL run_simulator on every workload/config of a small al
               "arrivals, decisions, results and the transition log; uncontended chains must finish in exactly the ticks their operators need")
 
 
-def run_f6(rep, pid, tier, kinds=("recount", "uncontended")):
+def run_f6(rep, pid, tier, kinds=("recount", "uncontended", "susp", "dags")):
     for kind in kinds:
         sp = f6.space(kind, tier)
         res = pmap(f6.work, chunked(sp, NPROC * 16), chunks=1)
